@@ -25,6 +25,7 @@ extern Disk D;
 // writer-side fault plan (applies to every sink stream opened in this run)
 struct SinkPlan {
     int64_t eio_at_op = -1;       // k-th sink write (0-based) returns error
+    int eio_errno = 5;            // errno of that one failing write (EIO by default; EINTR/EAGAIN look transient to retry loops)
     int64_t enospc_at_byte = -1;  // sink accepts bytes below this offset, then short write + error forever
     bool close_fail = false;      // cookie close returns error
     bool flush_fail = false;      // the write issued from inside fflush/fclose fails
